@@ -202,8 +202,12 @@ impl<D: DictionaryAccess> DictBuilder<D> {
             DataSource::File(p) => self.conn.read_file(p),
             DataSource::Data(d) => self.conn.read(d),
         }?;
-        self.lexicon
-            .set_max_conn_sizes(self.conn.left(), self.conn.right());
+        // a user dictionary is connected through the matrix of its system dictionary:
+        // the sizes installed by new_user stay in force
+        if !self.user {
+            self.lexicon
+                .set_max_conn_sizes(self.conn.left(), self.conn.right());
+        }
         self.reporter.collect(
             self.conn.left() as usize * self.conn.right() as usize,
             report,
